@@ -144,6 +144,7 @@ fn concretise(e: &Value, mech: &str, locale: &str, rng: &mut StdRng) -> SEv {
         "hb0" => SEv::Hb0,
         "hbn" => SEv::HbN(*pick(rng, &[1u16, 2, 65535])),
         "other0" => SEv::Other0(rng.gen_range(0..5)),
+        "blocked0" => SEv::Other0(rng.gen_range(0..2)),
         "methn" => SEv::MethN(rng.gen_range(0..6), *pick(rng, &[1u16, 7, 65535])),
         "content" => SEv::Content(rng.gen_range(0..4)),
         "garbage" => SEv::Garbage(rng.gen_range(0..4)),
@@ -228,7 +229,11 @@ fn pump(b: &mut Broker, reply: &mut Reply, s: &mut Script) {
                 gev(json!({"ev":"s","i":i,"k":"openok"}));
                 s.post = true;
                 b.send_method(reply, 0, AMQPClass::Connection(Cn::OpenOk(connection::OpenOk { known_hosts: String::new() })));
-                return;
+                // whatever the script holds behind OpenOk goes out in the same burst: frames of the connection's
+                // life (heartbeat, blocked / unblocked notices) that may be read in the same pass as OpenOk
+                if s.next >= s.evs.len() {
+                    return;
+                }
             }
             SEv::Close { code, text } => {
                 gev(json!({"ev":"s","i":i,"k":"close","code":code,"text":text}));
